@@ -117,9 +117,126 @@ def entry_state(ex, spec, ptypes):
     return st
 
 
+def lemma_axiom(ex, lem):
+    """the lemma as a quantified formula.  List-typed variables are replaced
+    by (array, length) pairs of bound variables so that terms built from
+    stores match the patterns."""
+    from .core import TList, fresh_name
+    st = State()
+    consts = []
+    for v, ty in lem['vars'].items():
+        if isinstance(ty, TList):
+            A = z3.Const(fresh_name('L_' + v), z3.ArraySort(z3.IntSort(), ty.elem.sort()))
+            L = z3.Int(fresh_name('n_' + v))
+            st.env[v] = Val(ty, ty.mk(A, L))
+            consts += [A, L]
+            st.pc.append(L >= 0)
+        else:
+            c = z3.Const(fresh_name('l_' + v), ty.sort())
+            st.env[v] = Val(ty, c)
+            consts.append(c)
+    if lem.get('induct'):
+        n = z3.Int(fresh_name('l_' + lem['induct']))
+        st.env[lem['induct']] = Val(C.TInt, n)
+        consts.append(n)
+        st.pc.append(n >= 0)
+    st.old = dict(st.env)
+    st.qvars = {k: v for k, v in st.env.items()}
+    saved = ex.axioms
+    ex.axioms = []
+    try:
+        hyps = list(st.pc) + [ex.spec_bool(h, st) for h in lem.get('hyps', [])]
+        goals = [ex.spec_bool(g[1] if isinstance(g, tuple) else g, st)
+                 for g in lem['goals']]
+        pats = [ex.spec_expr(p_, st).term for p_ in lem.get('patterns', [])]
+        extra = ex.axioms
+    finally:
+        ex.axioms = saved
+    body = z3.Implies(z3.And(*hyps), z3.And(*goals)) if hyps else z3.And(*goals)
+    ax = z3.ForAll(consts, body, patterns=pats) if pats else z3.ForAll(consts, body)
+    return [ax] + [a for a in extra if not _mentions_any(a, consts)]
+
+
+def instantiate_lemma(ex, lem, bindings, st, rewrite=()):
+    """instance of a lemma with some variables bound to given values; the
+    remaining variables stay universally quantified"""
+    from .core import TList, fresh_name
+    ls = State()
+    consts = []
+    for v, ty in lem['vars'].items():
+        if v in bindings:
+            ls.env[v] = bindings[v]
+        else:
+            c = z3.Const(fresh_name('l_' + v), ty.sort())
+            ls.env[v] = Val(ty, c)
+            consts.append(c)
+    if lem.get('induct'):
+        ls.env[lem['induct']] = bindings[lem['induct']]
+    ls.old = dict(ls.env)
+    ls.qvars = {k: v for k, v in ls.env.items() if v.term is not None and
+                any(v.term.eq(c) for c in consts)}
+    hyps  = [ex.spec_bool(h, ls) for h in lem.get('hyps', [])]
+    goals = [ex.spec_bool(g[1] if isinstance(g, tuple) else g, ls)
+             for g in lem['goals']]
+    if rewrite:
+        # the same conclusions, phrased with terms the caller's invariants use
+        # (e.g. len(out) for la + n); the equality is a fact of the call site
+        goals = goals + [z3.substitute(g, *rewrite) for g in goals]
+    if st is not None and not any(_mentions_any(h, consts) for h in hyps):
+        # lemma call: the hypotheses are proved here, once, as obligations of
+        # the calling function; the conclusion is then available outright
+        for k, (h, text) in enumerate(zip(hyps, lem.get('hyps', []))):
+            ex.oblige(st, 'lemma-call:%s/hyp%d@L%s' % (lem['name'], k + 1,
+                      ex.cur_line), h, 'call-pre', note=text)
+        hyps = []
+    if consts and not hyps:
+        # conclusions that do not mention the remaining variables are ground
+        # facts: state them outside the quantifier
+        ground = [g for g in goals if not _mentions_any(g, consts)]
+        goals  = [g for g in goals if _mentions_any(g, consts)]
+        if ground and st is not None:
+            ex.axioms.extend(ground)
+        if not goals:
+            return z3.BoolVal(True)
+    body = z3.Implies(z3.And(*hyps), z3.And(*goals)) if hyps else z3.And(*goals)
+    if consts:
+        pats = []
+        for p_ in lem.get('patterns', []):
+            t = ex.spec_expr(p_, ls).term
+            if _mentions_any(t, consts):
+                pats.append(t)
+        for g in goals:
+            if pats: break
+            if z3.is_eq(g) and _mentions_any(g.arg(0), consts):
+                pats.append(g.arg(0))
+        return z3.ForAll(consts, body, patterns=pats) if pats else \
+               z3.ForAll(consts, body)
+    return body
+
+
+def _mentions_any(term, consts):
+    ids = {c.get_id() for c in consts}
+    todo, seen = [term], set()
+    while todo:
+        x = todo.pop()
+        if x.get_id() in seen: continue
+        seen.add(x.get_id())
+        if x.get_id() in ids: return True
+        todo.extend(x.children())
+    return False
+
+
+def add_used_lemmas(ex, spec, reg):
+    for name in spec.get('uses', []):
+        if name not in reg.lemmas:
+            raise SpecError('unknown lemma %s' % name)
+        ex.axioms.extend(lemma_axiom(ex, reg.lemmas[name]))
+
+
 def _verify_variant(spec, reg, fsrc, modenv, ptypes, label, res):
     ex = Executor(spec, reg, fsrc, modenv, spec.get('opts'))
     ex.variant = label
+    add_used_lemmas(ex, spec, reg)
     st = entry_state(ex, spec, ptypes)
     res.inputs[label] = dict(st.env)
     for r in spec['requires']:
@@ -195,6 +312,7 @@ def _verify_variant(spec, reg, fsrc, modenv, ptypes, label, res):
             raise OutsideSubset('%s outside a loop' % kind)
     res.return_paths += n_ret
     res.obls.extend(ex.obls)
+    res.ex = ex
     res.inline_safety += ex.inline_safety
     res.notes.extend(ex.notes)
 
@@ -234,6 +352,38 @@ def _frame(ex, spec, s, where):
                   note='%s is not in modifies' % name)
 
 
+def _induction(ex, lem, st, res):
+    """lemma `forall n >= 0: hyps(n) ==> goals(n)` by induction on n:
+       base: hyps(0) ==> goals(0)
+       step: n >= 0, (hyps(n) ==> goals(n)), hyps(n+1) ==> goals(n+1)"""
+    nname = lem['induct']
+
+    def at(n_term, what):
+        s = st.fork()
+        s.env[nname] = Val(C.TInt, n_term)
+        return [ex.spec_bool(t[1] if isinstance(t, tuple) else t, s)
+                for t in lem.get(what, [])]
+    n = z3.Int('ind_' + nname)
+    # base
+    b = st.fork()
+    for h in at(z3.IntVal(0), 'hyps'): b.pc.append(h)
+    res.covers.append(('%s/base-hyps-satisfiable' % lem['name'], str(ex.check(b))))
+    for g, t in zip(at(z3.IntVal(0), 'goals'), lem['goals']):
+        ex.oblige(b, 'base:%s' % (t[0] if isinstance(t, tuple) else 'goal'), g,
+                  'lemma', note='n = 0')
+    # step
+    s = st.fork()
+    s.pc.append(n >= 0)
+    ih_h, ih_g = at(n, 'hyps'), at(n, 'goals')
+    s.pc.append(z3.Implies(z3.And(*ih_h) if ih_h else z3.BoolVal(True),
+                           z3.And(*ih_g)))
+    for h in at(n + 1, 'hyps'): s.pc.append(h)
+    for g, t in zip(at(n + 1, 'goals'), lem['goals']):
+        ex.oblige(s, 'step:%s' % (t[0] if isinstance(t, tuple) else 'goal'), g,
+                  'lemma', note='induction step n -> n+1')
+    ex.oblige(s, 'canary:step-hyps-consistent', z3.BoolVal(False), 'canary')
+
+
 # ------------------------------------------------------------------------------
 # lemmas: obligations over contracts only
 #
@@ -257,6 +407,13 @@ def verify_lemma(lem, reg):
                 st.pc.append(f)
         st.old = dict(st.env)
         res.inputs[''] = dict(st.env)
+        add_used_lemmas(ex, lem, reg)
+        if lem.get('induct'):
+            _induction(ex, lem, st, res)
+            res.obls.extend(ex.obls)
+            res.return_paths = 1
+            res.gen_s = time.time() - t0
+            return res
         for h in lem.get('hyps', []):
             st.pc.append(ex.spec_bool(h, st))
         sat = ex.check(st)
